@@ -228,15 +228,25 @@ pub fn run_engine<E: Engine>(engine: &E, opts: &RunOpts) -> i32 {
     let known_sigs_ref = &known_sigs;
     let agg_ref = &agg;
 
+    let next_shard = std::sync::atomic::AtomicU32::new(0);
+    let next_ref = &next_shard;
+    let workers = std::cmp::min(shards, std::env::var("VERIF_THREADS").ok().and_then(|s| s.parse().ok()).unwrap_or(16));
     std::thread::scope(|scope| {
-        for shard in 0..shards {
+        for _worker in 0..workers {
             let known_arc = std::sync::Arc::clone(&known_arc);
-            std::thread::Builder::new().stack_size(1 << 30).spawn_scoped(scope, move || {
+            std::thread::Builder::new().stack_size(1 << 30).spawn_scoped(scope, move || loop {
+                // logical shards (each with its own PRNG stream) are pulled by a fixed pool of workers
+                let shard = next_ref.fetch_add(1, std::sync::atomic::Ordering::SeqCst);
+                if shard >= shards {
+                    break;
+                }
+                let known_arc = std::sync::Arc::clone(&known_arc);
                 let strat = engine.strategy(opts.tier);
                 let cfg = Config {
                     cases,
                     failure_persistence: None,
                     max_shrink_iters: engine.max_shrink_iters(),
+                    max_shrink_time: 180_000,
                     max_local_rejects: 1 << 20,
                     max_global_rejects: 1 << 20,
                     ..Config::default()
